@@ -29,7 +29,8 @@ var configCmd = &cobra.Command{
 			return ErrInvalidArgs
 		}
 		dotSplit := strings.Split(args[0], ".")
-		if len(dotSplit) != 2 {
+		if len(dotSplit) != 2 || dotSplit[0] == "" || dotSplit[1] == "" {
+			// an empty section would be written as '[]', which no command can load any more
 			return ErrInvalidArgs
 		}
 
